@@ -27,6 +27,10 @@ class SelfDeadlock(Exception):
     pass
 
 
+class Aborted(BaseException):
+    """raised inside a worker to unwind it when a run is abandoned (the store object was replaced)"""
+
+
 class ILock:
     def __init__(self, rec):
         self.rec = rec
@@ -75,6 +79,8 @@ class ILock:
 def instantiate(micro, g, k):
     """symbolic micro string from the line table -> concrete JSON micro for graph index g (>=1), size k"""
     p = micro.split()
+    if p[0] == "ctor":
+        return ["ctor", p[1] == "true"]
     op, a = p[0], [int(x) for x in p[1:]]
 
     def ctr(c):
@@ -103,6 +109,8 @@ def instantiate(micro, g, k):
 
 def symbolic(micro):
     p = micro.split()
+    if p[0] == "ctor":
+        return ["ctor", p[1] == "true"]
     return [p[0]] + [int(x) for x in p[1:]]
 
 
@@ -115,7 +123,7 @@ class Recorder:
         for fl, rg in gen_report["ranges"].items():
             path = os.path.realpath(os.path.join(REPO, rg["file"]))
             self.files[path] = (fl, rg["first"], rg["last"], {int(k): v for k, v in gen_report["lines"][fl].items()},
-                                {n: tuple(r) for n, r in rg["methods"].items()})
+                                {n: tuple(r) for n, r in rg["methods"].items()}, tuple(rg.get("shell", (rg["first"], rg["last"]))))
         self.events = []          # (thread, symbolic micro, concrete micro)
         self.ctx = {}             # thread -> (g, k)
         self.tls = threading.local()
@@ -151,9 +159,11 @@ class Recorder:
         f = self._file(frame.f_code)
         if not f:
             return None
-        if not (f[1] <= frame.f_code.co_firstlineno <= f[2]):
-            return None
-        if frame.f_code.co_name in ("__init__", "<lambda>"):
+        ln = frame.f_code.co_firstlineno
+        if not (f[5][0] <= ln <= f[5][1]):
+            return None                      # outside the shell class (which contains the store class)
+        inner = f[1] <= ln <= f[2]
+        if frame.f_code.co_name == "<lambda>" or (inner and frame.f_code.co_name == "__init__"):
             return None
         return self.local_trace
 
@@ -188,6 +198,9 @@ def fresh_store(flavour, rec):
     imp.storage.storage_instance.lock = lock
     rec.lock = lock
     rec.flavour = flavour
+    rec.store0 = imp.storage.storage_instance
+    rec.shell_cls = type(imp.storage)
+    rec.importer_cls = type(imp)
     _install_wrappers(type(imp.storage.storage_instance), flavour)
     global _REC
     _REC = rec
@@ -195,6 +208,15 @@ def fresh_store(flavour, rec):
 
 
 _REC = None
+
+
+def identity(rec):
+    """the singleton protocol: one store object and one lock object for the lifetime of the process"""
+    if rec.shell_cls.storage_instance is not rec.store0:
+        return "store-object-replaced"
+    if rec.store0.lock is not rec.lock:
+        return "lock-object-replaced"
+    return None
 
 
 def _install_wrappers(cls, flavour):
@@ -274,9 +296,12 @@ METHOD_OF = {"add_graph": "add_graph", "add_graph_bad": "add_graph", "add_graph_
 def run_op(imp, rec, op, uniq):
     """op = [kind, g, k]; returns ["ok", summary] | ["err", kind]"""
     kind, g, k = op
-    st = imp.storage
     rec.set_ctx(g, k if kind in ("add_graph", "add_graph_bad", "add_graph_direct") else 1, uniq)
     try:
+        # what a client does: a freshly constructed importer per operation (singleton creation guard runs each time);
+        # the shell resolves the current store at every call
+        imp = rec.importer_cls()
+        st = imp.storage
         if kind == "add_graph":
             st.add_graph(gid(g), make_graph(g, k))
             return ["ok", None]
@@ -313,7 +338,7 @@ def run_op(imp, rec, op, uniq):
 
 def snapshot(flavour, imp, lock, graphs):
     """canonical final state in the vocabulary of the Lean model; `graphs` = graph indices in play"""
-    st = imp.storage.storage_instance
+    st = imp.storage.storage_instance      # the store a client sees now
     idx = {gid(g): g for g in graphs}
     nodes = []
     if flavour == "shared":
@@ -325,7 +350,8 @@ def snapshot(flavour, imp, lock, graphs):
         for name, G in list(st.graphs.items()):
             for n, d in G.nodes(data=True):
                 nodes.append([idx.get(name, 0), n, idx.get(d.get("GraphID"), 0)])
-    return {"lock": lock.owner if lock.held else None, "relErr": lock.rel_err, "ctr": ctr, "nodes": sorted(nodes)}
+    return {"lock": lock.owner if lock.held else None, "relErr": lock.rel_err, "ctr": ctr, "nodes": sorted(nodes),
+            "gen": 0 if st is getattr(lock.rec, "store0", st) else 1}
 
 
 # --------------------------------------------------------------------------------------------
@@ -343,17 +369,28 @@ class Sched:
         self.lock = None
         self.log = []     # (enabled tuple, chosen, cur)
         self.error = None
+        self.aborted = False
+        self.watch = None           # callable -> None | str, evaluated by the scheduler after every step
+        self.broken = None
 
     # called from workers
     def yield_point(self, tid):
+        if self.aborted:
+            return
         self.back.release()
         self.go[tid].acquire()
+        if self.aborted:
+            raise Aborted()
 
     def yield_blocked(self, tid):
+        if self.aborted:
+            raise Aborted()
         self.blocked[tid] = True
         self.back.release()
         self.go[tid].acquire()
         self.blocked[tid] = False
+        if self.aborted:
+            raise Aborted()
 
     def worker(self, tid, rec, body):
         rec.tls.tid = tid
@@ -361,6 +398,8 @@ class Sched:
         sys.settrace(rec.global_trace)
         try:
             body()
+        except Aborted:
+            pass
         except BaseException as e:      # noqa - a crash of the harness itself
             self.error = e
         finally:
@@ -389,6 +428,17 @@ class Sched:
             cur = t
             self.go[t].release()
             self.back.acquire()
+            if self.watch is not None and self.broken is None:
+                self.broken = self.watch()
+                if self.broken:
+                    # the store / lock object was swapped: threads may now block on an uninstrumented lock.
+                    # Unwind every worker (their finally clauses run untraced) and stop.
+                    self.aborted = True
+                    for u in range(self.n):
+                        if not self.done[u]:
+                            self.go[u].release()
+                            self.back.acquire()
+                    break
         stuck = [t for t in range(self.n) if not self.done[t]]
         # threads blocked forever on the lock: leave them parked (daemon threads); report
         return stuck
@@ -426,6 +476,7 @@ def run_threads(gen_report, flavour, thread_ops, decide, setup_ops=()):
             rec.stop()
     rec.sched = sched
     sched.lock = lock
+    sched.watch = lambda: identity(rec)
     results = [[] for _ in range(n)]
 
     def body(t):
@@ -438,7 +489,8 @@ def run_threads(gen_report, flavour, thread_ops, decide, setup_ops=()):
         raise sched.error
     graphs = sorted({op[1] for ops in list(thread_ops) + [list(setup_ops)] for op in ops})
     return {"results": results, "events": rec.events, "snapshot": snapshot(flavour, imp, lock, graphs), "log": sched.log,
-            "stuck": stuck, "graphs": graphs, "rec": rec, "imp": imp, "lock": lock}
+            "stuck": [] if sched.broken else stuck, "graphs": graphs, "rec": rec, "imp": imp, "lock": lock,
+            "identity": sched.broken or identity(rec)}
 
 
 def explore(gen_report, flavour, thread_ops, bound, budget, setup_ops=(), visit=None):
